@@ -328,6 +328,15 @@ def violations(repo):
         b.types.append(("badbits", ["bits BadBits:", "  0 [+24]  Sub  s", "  24 [+8]  UInt  x"]))
         return "badbits"
 
+    for kind, w in [("Bcd", 65), ("Bcd", 72), ("Bcd", 76), ("Bcd", 0), ("UInt", 65), ("UInt", 0), ("Int", 65), ("Int", 0), ("UInt", 72), ("Int", 128)]:
+        def mk5(kind=kind, w=w):
+            def fn(rnd, b, info):
+                # run-time parameters are numbers too: the same 1..64 bits
+                b.types.append(("badparam", ["struct BadParam(plim: %s:%d):" % (kind, w), "  0 [+1]  UInt  x"]))
+                return "badparam"
+            return fn
+        V.append(("%s-parameter-of-%d-bits" % (kind, w), mk5()))
+
     @v("array-of-structs-inside-bits")
     def _(rnd, b, info):
         form = rnd.choice(["  0 [+48]  Sub[2]  s", "  0 [+48]  Sub[]  s", "  0 [+48]  Sub[1][2]  s", "  0 [+24]  Sub[1]  s\n  24 [+24]  UInt  pad"])
